@@ -10,5 +10,6 @@ CONSTANTS
   Variant = "fresh"
   ElemOf <- Elem3
   CacheVariant = "none"
+  OwnerVariant = "keep"
 INVARIANT EmitBehaviours
 CHECK_DEADLOCK FALSE
